@@ -410,6 +410,9 @@ func genFromRootOp(c *Ctx, allowMassive bool) Op {
 	if c.Chance(1, 12) {
 		op.NilOption = true
 	}
+	if c.Chance(1, 10) {
+		op.Decoys = true
+	}
 	if c.Chance(1, 8) {
 		op.Alias = true
 	}
@@ -708,6 +711,14 @@ func caseC03(c *Ctx) {
 			}
 		}
 	}
+	if !needsFS(op) && !validatesNames(op) && c.Chance(1, 8) {
+		// not path elements, but perfectly good node names where nothing is validated
+		odd := []string{"a/b", "x/", "\xff\xfe", "tab\there"}[c.Draw(4)]
+		root.Add(odd)
+		model.Kids = append(model.Kids, &MNode{Name: odd})
+		prog = append(prog, fmt.Sprintf("Add(%q under %q)", odd, model.Name))
+		c.st.Count("odd-name-for-non-validating-op")
+	}
 	if (op.Kind == "verify" || (op.Kind == "output" && op.DryRun)) && model.Count() >= 2 && c.Chance(1, 5) {
 		// a name that is not a single path element: both families must reject it alike
 		bad := []string{"a/b", "x/", "/abs", "p/q/r"}[c.Draw(4)]
@@ -720,7 +731,13 @@ func caseC03(c *Ctx) {
 	c.Scenario["program"] = prog
 	c.Scenario["op"] = op.String()
 	c.Scenario["model"] = model.String()
-	sp := genSpelling(c, false)
+	var sp Spelling
+	if strings.TrimLeft(strings.TrimSpace(model.Name), "#") == model.Name && model.Name != "" {
+		// (the tree is already built: only use the heading notation if the root's name survives it)
+		sp = genSpellingSimple(c, []*MNode{{Name: model.Name}})
+	} else {
+		sp = genSpelling(c, false)
+	}
 	doc, _ := spell(c, []*MNode{model}, sp)
 	c.Scenario["doc"] = string(doc)
 	c.st.Count("op:" + op.Kind)
@@ -786,6 +803,7 @@ func caseC03(c *Ctx) {
 	mdop.FromRoot = false
 	if op.Kind == "walkiter" {
 		mdop.Kind = "walk" // the iterator form has no Markdown counterpart; it must equal the callback form
+		mdop.Massive = false // the iterator form ignores WithMassive
 	}
 	var want *opResult
 	if op.Kind == "mkdir" && op.DryRun {
